@@ -827,10 +827,6 @@ fn run_script(ops: &[Op], queries: bool, m: &mut Model, rep: Option<&mut Report>
                 let ty = if qr.chance(1, 3) { Some(qr.below(2)) } else { None };
                 let tys = ty.map_or("-".to_string(), |t| t.to_string());
                 let a = q_neigh(&g, n, dir, ty);
-                let b = m.ask(&format!("neigh {n} {dir} {tys}"));
-                if a != b {
-                    return Some(SeqFail { at: i, what: format!("neigh {n} {dir} {tys}: impl={a} model={b}"), violation: None });
-                }
                 let spec = im.spec_neighbors(n, dir, ty).map_or("err node_not_found".to_string(), |v| format!("ok {}", show_ids(&v)));
                 if a != spec {
                     return Some(SeqFail {
@@ -839,11 +835,11 @@ fn run_script(ops: &[Op], queries: bool, m: &mut Model, rep: Option<&mut Report>
                         violation: Some(("graph_engine.neighbors/not_what_edge_set_implies".into(), format!("neighbors({n},{dir},{tys}) = {a}, edge set implies {spec}"))),
                     });
                 }
-                let a = q_deg(&g, n);
-                let b = m.ask(&format!("deg {n}"));
+                let b = m.ask(&format!("neigh {n} {dir} {tys}"));
                 if a != b {
-                    return Some(SeqFail { at: i, what: format!("deg {n}: impl={a} model={b}"), violation: None });
+                    return Some(SeqFail { at: i, what: format!("neigh {n} {dir} {tys}: impl={a} model={b}"), violation: None });
                 }
+                let a = q_deg(&g, n);
                 let spec = im.spec_degree(n).map_or("err node_not_found".to_string(), |(o, i)| format!("ok {o} {i} {}", o + i));
                 if a != spec {
                     return Some(SeqFail {
@@ -852,16 +848,20 @@ fn run_script(ops: &[Op], queries: bool, m: &mut Model, rep: Option<&mut Report>
                         violation: Some(("graph_engine.degree/not_what_edge_set_implies".into(), format!("degree({n}) = {a}, edge set implies {spec}"))),
                     });
                 }
+                let b = m.ask(&format!("deg {n}"));
+                if a != b {
+                    return Some(SeqFail { at: i, what: format!("deg {n}: impl={a} model={b}"), violation: None });
+                }
                 let depth = qr.below(4) as usize;
                 let a = q_trav(&g, n, dir, depth, ty);
-                let b = m.ask(&format!("trav {n} {dir} {depth} {tys}"));
-                if a != b {
-                    return Some(SeqFail { at: i, what: format!("trav {n} {dir} {depth} {tys}: impl={a} model={b}"), violation: None });
-                }
                 let spec = im.spec_traverse(n, dir, depth, ty).map_or("err node_not_found".to_string(), |v| format!("ok {}", show_ids(&v)));
                 if a != spec {
                     let w = format!("traverse({n},{dir},depth {depth},{tys}) = {a}, edge set implies {spec}");
                     return Some(SeqFail { at: i, what: w.clone(), violation: Some(("graph_engine.traverse/not_what_edge_set_implies".into(), w)) });
+                }
+                let b = m.ask(&format!("trav {n} {dir} {depth} {tys}"));
+                if a != b {
+                    return Some(SeqFail { at: i, what: format!("trav {n} {dir} {depth} {tys}: impl={a} model={b}"), violation: None });
                 }
                 if qr.chance(1, 2) {
                     if let Some(r) = rep.as_deref_mut() {
@@ -871,24 +871,20 @@ fn run_script(ops: &[Op], queries: bool, m: &mut Model, rep: Option<&mut Report>
                 }
                 // ---- edges_of / edges_of_paginated / neighbors_paginated / degree by type
                 let (a, ids) = q_eof(&g, n, dir);
-                let b = m.ask(&format!("eof {n} {dir}"));
-                if a != b {
-                    return Some(SeqFail { at: i, what: format!("eof {n} {dir}: impl={a} model={b}"), violation: None });
-                }
                 let spec = im.spec_edges_of(n, dir);
                 let spec_txt = spec.as_ref().map_or("err node_not_found".to_string(), |v| if v.is_empty() { "ok -".to_string() } else { format!("ok {}", v.iter().map(|e| im.show_edge(*e)).collect::<Vec<_>>().join(" ")) });
                 if a != spec_txt {
                     let w = format!("edges_of({n},{dir}) = {a}, edge set implies {spec_txt}");
                     return Some(SeqFail { at: i, what: w.clone(), violation: Some(("graph_engine.edges_of/not_what_edge_set_implies".into(), w)) });
                 }
+                let b = m.ask(&format!("eof {n} {dir}"));
+                if a != b {
+                    return Some(SeqFail { at: i, what: format!("eof {n} {dir}: impl={a} model={b}"), violation: None });
+                }
                 let skip = qr.below(3) as usize;
                 let limit = if qr.chance(1, 4) { None } else { Some(qr.below(4) as usize) };
                 let lims = limit.map_or("-".to_string(), |l| l.to_string());
                 let (a, pids) = q_eofp(&g, n, dir, skip, limit);
-                let b = m.ask(&format!("eofp {n} {dir} {skip} {lims}"));
-                if a != b {
-                    return Some(SeqFail { at: i, what: format!("eofp {n} {dir} {skip} {lims}: impl={a} model={b}"), violation: None });
-                }
                 if spec.is_some() {
                     let want: Vec<u64> = ids.iter().copied().skip(skip).take(limit.unwrap_or(usize::MAX)).collect();
                     let more = limit.map_or(false, |l| ids.len() > skip + l);
@@ -898,11 +894,11 @@ fn run_script(ops: &[Op], queries: bool, m: &mut Model, rep: Option<&mut Report>
                         return Some(SeqFail { at: i, what: w.clone(), violation: Some(("graph_engine.edges_of_paginated/not_a_page_of_edges_of".into(), w)) });
                     }
                 }
-                let (a, pids) = q_neighp(&g, n, dir, ty, skip, limit);
-                let b = m.ask(&format!("neighp {n} {dir} {tys} {skip} {lims}"));
+                let b = m.ask(&format!("eofp {n} {dir} {skip} {lims}"));
                 if a != b {
-                    return Some(SeqFail { at: i, what: format!("neighp {n} {dir} {tys} {skip} {lims}: impl={a} model={b}"), violation: None });
+                    return Some(SeqFail { at: i, what: format!("eofp {n} {dir} {skip} {lims}: impl={a} model={b}"), violation: None });
                 }
+                let (a, pids) = q_neighp(&g, n, dir, ty, skip, limit);
                 if let Some(all) = im.spec_neighbors(n, dir, ty) {
                     let want: Vec<u64> = all.iter().copied().skip(skip).take(limit.unwrap_or(usize::MAX)).collect();
                     let more = limit.map_or(false, |l| all.len() > skip + l);
@@ -912,16 +908,20 @@ fn run_script(ops: &[Op], queries: bool, m: &mut Model, rep: Option<&mut Report>
                         return Some(SeqFail { at: i, what: w.clone(), violation: Some(("graph_engine.neighbors_paginated/not_a_page_of_neighbors".into(), w)) });
                     }
                 }
+                let b = m.ask(&format!("neighp {n} {dir} {tys} {skip} {lims}"));
+                if a != b {
+                    return Some(SeqFail { at: i, what: format!("neighp {n} {dir} {tys} {skip} {lims}: impl={a} model={b}"), violation: None });
+                }
                 let qty = qr.below(2);
                 let a = q_degty(&g, n, qty);
-                let b = m.ask(&format!("degty {n} {qty}"));
-                if a != b {
-                    return Some(SeqFail { at: i, what: format!("degty {n} {qty}: impl={a} model={b}"), violation: None });
-                }
                 let spec = im.spec_degree_by_type(n, qty).map_or("err node_not_found".to_string(), |(o, i)| format!("ok {o} {i} {}", o + i));
                 if a != spec {
                     let w = format!("degree_by_type({n},T{qty}) = {a}, edge set implies {spec}");
                     return Some(SeqFail { at: i, what: w.clone(), violation: Some(("graph_engine.degree_by_type/not_what_edge_set_implies".into(), w)) });
+                }
+                let b = m.ask(&format!("degty {n} {qty}"));
+                if a != b {
+                    return Some(SeqFail { at: i, what: format!("degty {n} {qty}: impl={a} model={b}"), violation: None });
                 }
                 // ---- point reads
                 let e = if im.edges.is_empty() || qr.chance(1, 5) { qr.below(12) } else { *qr.pick(&im.edges.keys().copied().collect::<Vec<_>>()) };
@@ -1823,6 +1823,7 @@ fn main() {
     .collect();
     rep.note("add_edge_to_list / remove_edge_from_list run under edge_list_lock(key) (a stripe of index_locks chosen by a hash of the list key, /repo 81b9c5b4); the model has one lock per list key (acquire / release are silent steps, a thread at the acquire of a held lock is not runnable); two keys sharing a stripe only remove interleavings. The lock is invisible in the yield traces: the correspondence is that every real schedule is accepted by the locked model (a grant to a non-runnable model thread would show as a trace disagreement)");
     rep.note("the scheduler's choose mirrors the list lock (LockMirror) and does not grant a thread that would wait for a held stripe; steps where a thread nevertheless waited on a real lock (index stripes shared with list keys, wrong guesses) are counted in conc.steps_with_a_thread_blocked_on_a_real_lock");
+    rep.note("candidate classes (observations, not violations, until listed or fixed): graph_engine.create_node/lists_initialised_after_node_visible (Props.create_node_create_edge_race_witness, replayed in stream witness.create_node_vs_create_edge; proposed fix /verif/proposed/C05-create-node-lists-before-record.diff) and graph_engine.delete_edge/edge_still_being_created (Props.delete_edge_of_edge_in_creation_race_witness; needs a preemption between create_edge's store.put of the record and its first lock acquisition, which is not a yield point: not replayable under the scheduler); stream conc.fresh_ids runs programs that name ids handed out during the concurrent phase, batch calls included");
     rep.note("delete_node's >=100-edge path runs on rayon pool threads that the deterministic scheduler does not control; it is exercised only by the sequential stream (real concurrency, not schedule-controlled); since the list lock every such script must be well-formed (class graph_engine.delete_node/parallel_path_lost_removal is a regression oracle)");
     rep.note("not modelled: property/label index contents, constraints, weak-memory effects inside one TensorStore call; batch operations, add_label / remove_label and re-opening (GraphEngine::with_store over the same store) are exercised sequentially only");
     rep.write(&args.out);
